@@ -1,12 +1,269 @@
-(* C14 — placeholder while the facts file is being written *)
+(* C14 — workbook format does not matter (CSV folder / XLSX / JSON from `convert`).
+   Only property theorems here, each closed by [exact] and followed by Print Assumptions.
+   Models: Io/Csv.v (Python's csv module, excel dialect, as Modules/_csv.c; io newline
+   translation; tablib import/export), Io/Sanitize.v (XLSXSheetReader._sanitize, Dataset.dict
+   getter/setter, the three workbook readers).  Facts: Io/IoFacts.v, Io/SanitizeFacts.v,
+   Io/JsonTableFacts.v, Io/AgreeFacts.v.  openpyxl and json are not modelled: they are the
+   universally quantified functions with one premise each in part 4. *)
 From Coq Require Import List NArith Bool.
-From RPFT Require Import Base.Sexp Base.Result Gen.Tables Io.Csv Io.Sanitize.
+From RPFT Require Import Base.Sexp Base.PyStr Base.Result Gen.Tables Io.Csv Io.Sanitize
+  Io.IoFacts Io.SanitizeFacts Io.JsonTableFacts Io.AgreeFacts.
 Import ListNotations.
 Local Open Scope N_scope.
 
-Example C14_csv_witness :
+(* ------------------------------------------------------------------ 0. the dialect *)
+
+(* the regenerated csv dialect (tablib's, in the running interpreter) is the one Csv.v models:
+   distinct non-newline delimiter and quotechar, CR LF terminator, doublequote, QUOTE_MINIMAL,
+   no escapechar, no skipinitialspace, not strict *)
+Theorem C14_csv_dialect_is_the_modelled_one : csv_dialect_ok = true.
+Proof. exact csv_tables_ok. Qed.
+Print Assumptions C14_csv_dialect_is_the_modelled_one.
+
+(* ------------------------------------------------------------------ 1. the csv codec *)
+
+(* every list of rows of arbitrary strings (any code points: delimiter, quote, CR, LF,
+   non-ASCII; empty rows, lone empty fields, ragged rows) survives csv.writer -> csv.reader.
+   The only guard is the reader's field size limit. *)
+Theorem C14_csv_roundtrip : forall rows : list (list str),
+  Forall (Forall (fun s => N.of_nat (length s) <= csv_field_limit)) rows ->
   csv_read csv_delimiter csv_quotechar csv_field_limit
-    (csv_write csv_delimiter csv_quotechar csv_lineterminator [[[97]; [44; 34; 13; 10]]; [[]]; []])
-  = Ok [[[97]; [44; 34; 13; 10]]; [[]]; []].
-Proof. vm_compute. reflexivity. Qed.
-Print Assumptions C14_csv_witness.
+    (csv_write csv_delimiter csv_quotechar csv_lineterminator rows) = Ok rows.
+Proof. exact csv_roundtrip. Qed.
+Print Assumptions C14_csv_roundtrip.
+
+Example C14_csv_roundtrip_nonvacuous :
+  Forall (Forall fits) ex_rows /\
+  csv_wr ex_rows = [97; 44; 34; 44; 34; 34; 13; 10; 34; 44; 44; 233; 19990; 128512; 13; 10;
+                    34; 34; 13; 10;
+                    13; 10;
+                    34; 13; 34; 44; 34; 10; 34; 44; 34; 34; 34; 34; 34; 34; 44; 34; 97; 13; 98; 34; 13; 10;
+                    44; 13; 10] /\
+  csv_rd (csv_wr ex_rows) = Ok ex_rows.
+Proof. exact csv_roundtrip_nonvacuous. Qed.
+Print Assumptions C14_csv_roundtrip_nonvacuous.
+
+(* without the guard the statement is false: a field of field_size_limit+1 characters is
+   written and then refused (_csv.Error: field larger than field limit) *)
+Theorem C14_csv_roundtrip_unguarded_refuted :
+  ~ (forall rows, csv_rd (csv_wr rows) = Ok rows) /\ csv_rd (csv_wr [[big_field]]) = Err EFieldLimit.
+Proof. exact csv_roundtrip_unguarded_refuted. Qed.
+Print Assumptions C14_csv_roundtrip_unguarded_refuted.
+
+(* the guard is exact: the round trip holds IF AND ONLY IF every field fits, and otherwise the
+   reader's answer is the field-limit error, whatever else the rows contain *)
+Theorem C14_csv_roundtrip_guard_exact : forall rows : list (list str),
+  (csv_rd (csv_wr rows) = Ok rows <-> Forall (Forall fits) rows) /\
+  (~ Forall (Forall fits) rows -> csv_rd (csv_wr rows) = Err EFieldLimit).
+Proof. exact (fun rows => conj (csv_roundtrip_iff rows) (csv_limit_exceeded rows)). Qed.
+Print Assumptions C14_csv_roundtrip_guard_exact.
+
+(* the file as sheets.load_csv reads it (text stream with newline=None): every cell comes back
+   newline-normalised (CR LF and CR -> LF) and otherwise intact *)
+Theorem C14_csv_text_roundtrip : forall rows : list (list str),
+  Forall (Forall (fun s => N.of_nat (length s) <= csv_field_limit)) rows ->
+  csv_read csv_delimiter csv_quotechar csv_field_limit
+    (translate (csv_write csv_delimiter csv_quotechar csv_lineterminator rows)) = Ok (map (map translate) rows).
+Proof. exact csv_text_roundtrip. Qed.
+Print Assumptions C14_csv_text_roundtrip.
+
+Example C14_csv_text_roundtrip_nonvacuous :
+  Forall (Forall fits) ex_rows /\ map (map translate) ex_rows <> ex_rows /\
+  csv_rd (translate (csv_wr ex_rows)) = Ok (map (map translate) ex_rows).
+Proof. exact csv_text_roundtrip_nonvacuous. Qed.
+Print Assumptions C14_csv_text_roundtrip_nonvacuous.
+
+(* tablib export + sheets.load_csv on one sheet, in either newline mode of load_csv *)
+Theorem C14_csv_sheet : forall translated (t : table str str),
+  hdr t <> [] -> rect t -> cells_fit t ->
+  load_csv translated (export_csv t) = Ok (if translated then tr_table t else t).
+Proof. exact csv_sheet. Qed.
+Print Assumptions C14_csv_sheet.
+
+(* ------------------------------------------------------------------ 2. _sanitize *)
+
+(* strip_none is THE split of a header row into (a part that is empty or ends with a real
+   header) ++ (None cells) *)
+Theorem C14_strip_none_characterised : forall h : list xcell,
+  (exists k, h = strip_none h ++ repeat None k /\ ends_some (strip_none h)) /\
+  (forall l k, h = l ++ repeat None k -> ends_some l -> strip_none h = l).
+Proof. exact (fun h => conj (strip_none_decomp h) (strip_none_unique h)). Qed.
+Print Assumptions C14_strip_none_characterised.
+
+(* the loop as coded (pop trailing None headers; per row: truncate to the header width,
+   None -> '', keep iff some cell is non-empty, append with tablib's dimension check) equals the
+   declarative description, on every table — errors included *)
+Theorem C14_sanitize_spec : forall sheet : table xcell xcell,
+  sanitize sheet =
+  match hdr sheet with
+  | [] => Err EType
+  | _ =>
+    match strip_none (hdr sheet) with
+    | [] => Err EIndex
+    | h' =>
+      let w := length h' in
+      let kept := filter (existsb nonempty) (map (fun r => firstn w (map cell_text r)) (rws sheet)) in
+      if forallb (fun r => Nat.eqb (length r) w) kept then Ok (mkT h' kept) else Err EInvalidDimensions
+    end
+  end.
+Proof. exact sanitize_spec. Qed.
+Print Assumptions C14_sanitize_spec.
+
+(* on what tablib's XLSX import hands over (rows as wide as the header row) it cannot fail
+   once one header is not None *)
+Theorem C14_sanitize_imported : forall sheet : table xcell xcell,
+  rect sheet -> strip_none (hdr sheet) <> [] ->
+  sanitize sheet = Ok (mkT (strip_none (hdr sheet))
+                           (filter keep_row (map (sanitize_row (length (strip_none (hdr sheet)))) (rws sheet)))).
+Proof. exact sanitize_imported. Qed.
+Print Assumptions C14_sanitize_imported.
+
+Theorem C14_sanitize_idempotent : forall sheet t,
+  sanitize sheet = Ok t -> sanitize (mkT (hdr t) (map (map Some) (rws t))) = Ok t.
+Proof. exact sanitize_idempotent. Qed.
+Print Assumptions C14_sanitize_idempotent.
+
+Example C14_sanitize_nonvacuous :
+  rect ex_sheet /\ strip_none (hdr ex_sheet) = [Some [97]; None; Some [98]] /\
+  sanitize ex_sheet = Ok ex_sanitized /\ sanitize (relift ex_sanitized) = Ok ex_sanitized.
+Proof. exact sanitize_nonvacuous. Qed.
+Print Assumptions C14_sanitize_nonvacuous.
+
+(* ------------------------------------------------------------------ 3. table <-> list of dicts *)
+
+Theorem C14_json_table_roundtrip : forall t : table str str,
+  NoDup (hdr t) -> rect t -> rws t <> [] -> from_dicts (to_dicts t) = Ok t.
+Proof. exact json_table_roundtrip. Qed.
+Print Assumptions C14_json_table_roundtrip.
+
+Example C14_json_table_roundtrip_nonvacuous :
+  NoDup (hdr ex_table) /\ rect ex_table /\ rws ex_table <> [] /\
+  to_dicts ex_table = JDicts [ [([97], [120]); ([98; 32; 99], []); ([233], [44; 34; 10])];
+                               [([97], []); ([98; 32; 99], []); ([233], [])];
+                               [([97], [49]); ([98; 32; 99], [50]); ([233], [19990])] ].
+Proof. exact json_table_roundtrip_nonvacuous. Qed.
+Print Assumptions C14_json_table_roundtrip_nonvacuous.
+
+(* rows = []: the headers are lost (known finding "sheet without rows") *)
+Theorem C14_json_table_roundtrip_header_only_refuted :
+  let t := mkT [[97]] [] in
+  NoDup (hdr t) /\ rect t /\ from_dicts (to_dicts t) = Ok empty_table /\ from_dicts (to_dicts t) <> Ok t.
+Proof. exact json_table_roundtrip_header_only_refuted. Qed.
+Print Assumptions C14_json_table_roundtrip_header_only_refuted.
+
+(* NoDup is needed too (outside the property's domain: it asks for unique headers) *)
+Theorem C14_json_table_roundtrip_duplicate_header_refuted :
+  let t := mkT [[97]; [97]] [[[120]; [121]]] in
+  rect t /\ rws t <> [] /\ from_dicts (to_dicts t) = Ok (mkT [[97]] [[[121]]]) /\ from_dicts (to_dicts t) <> Ok t.
+Proof. exact json_table_roundtrip_duplicate_header_refuted. Qed.
+Print Assumptions C14_json_table_roundtrip_duplicate_header_refuted.
+
+(* ------------------------------------------------------------------ 4. the three readers agree *)
+
+(* one XLSX sheet, also when openpyxl reports k extra None-filled columns to the right *)
+Theorem C14_xlsx_sheet : forall (t : table str str) k,
+  hdr t <> [] -> Forall (fun s => s <> []) (hdr t) -> rect t -> no_empty_row t ->
+  read_xlsx_sheet (xl_grid t) = Ok (lift_table (tr_table t)) /\
+  read_xlsx_sheet (widen k (xl_grid t)) = Ok (lift_table (tr_table t)).
+Proof. exact (fun t k H1 H2 H3 H4 => conj (xlsx_sheet t H1 H2 H3 H4) (xlsx_sheet_stray t k H1 H2 H3 H4)). Qed.
+Print Assumptions C14_xlsx_sheet.
+
+(* Premises (the two libraries that are not modelled): openpyxl hands back, for a workbook saved
+   as string cells, the grid [xl_grid] (None for '', CR LF / CR -> LF); json.loads undoes
+   json.dumps.  Domain: the property's (rectangular sheets, non-empty pairwise distinct headers,
+   cells within the csv field limit) minus the two classes refuted below, cells without CR.
+   Then the CSV folder, the XLSX file and the JSON produced by `convert` read into the workbook
+   itself — names, headers and every cell string intact. *)
+Theorem C14_formats_agree :
+  forall (X J : Type) (xl_write : workbook (table str str) -> X) (xl_load : X -> workbook (list (list xcell)))
+         (json_dumps : workbook jsheet -> J) (json_loads : J -> workbook jsheet),
+  (forall wb, xl_load (xl_write wb) = wb_map xl_grid wb) ->
+  (forall b, json_loads (json_dumps b) = b) ->
+  forall (translated : bool) (wb : workbook (table str str)),
+  Forall (fun p => let t := snd p in
+            hdr t <> [] /\ Forall (fun s => s <> []) (hdr t) /\ NoDup (hdr t) /\ rect t /\ cells_fit t /\
+            no_empty_row t /\ rws t <> []) wb ->
+  Forall (fun p => cr_free (snd p)) wb ->
+  via_csv translated wb = Ok wb /\
+  via_xlsx X xl_write xl_load wb = Ok (wb_map lift_table wb) /\
+  via_json J json_dumps json_loads translated wb = Ok wb.
+Proof. exact formats_agree. Qed.
+Print Assumptions C14_formats_agree.
+
+Example C14_formats_agree_nonvacuous :
+  let xl_write := wb_map xl_grid in
+  let xl_load := fun x : workbook (list (list xcell)) => x in
+  let dumps := fun b : workbook jsheet => b in
+  let loads := fun b : workbook jsheet => b in
+  (forall wb, xl_load (xl_write wb) = wb_map xl_grid wb) /\ (forall b, loads (dumps b) = b) /\
+  wb_ok ex_wb /\ wb_cr_free ex_wb /\
+  via_csv load_csv_translated ex_wb = Ok ex_wb /\
+  via_xlsx _ xl_write xl_load ex_wb = Ok (wb_map lift_table ex_wb) /\
+  via_json _ dumps loads load_csv_translated ex_wb = Ok ex_wb.
+Proof. exact formats_agree_nonvacuous. Qed.
+Print Assumptions C14_formats_agree_nonvacuous.
+
+(* with CR LF / CR inside cells the three readers still agree with each other, on the
+   newline-normalised workbook (load_csv opens its file with newline=None: regenerated table) *)
+Theorem C14_formats_agree_normalised :
+  forall (X J : Type) (xl_write : workbook (table str str) -> X) (xl_load : X -> workbook (list (list xcell)))
+         (json_dumps : workbook jsheet -> J) (json_loads : J -> workbook jsheet),
+  (forall wb, xl_load (xl_write wb) = wb_map xl_grid wb) ->
+  (forall b, json_loads (json_dumps b) = b) ->
+  forall wb : workbook (table str str),
+  Forall (fun p => let t := snd p in
+            hdr t <> [] /\ Forall (fun s => s <> []) (hdr t) /\ NoDup (map translate (hdr t)) /\ rect t /\
+            cells_fit t /\ no_empty_row t /\ rws t <> []) wb ->
+  via_csv load_csv_translated wb = Ok (wb_map tr_table wb) /\
+  via_xlsx X xl_write xl_load wb = Ok (wb_map lift_table (wb_map tr_table wb)) /\
+  via_json J json_dumps json_loads load_csv_translated wb = Ok (wb_map tr_table wb).
+Proof. exact formats_agree_normalised_tables. Qed.
+Print Assumptions C14_formats_agree_normalised.
+
+Example C14_formats_agree_normalised_nonvacuous :
+  load_csv_translated = true /\
+  Forall (fun p => sheet_ok_tr (snd p)) ex_wb_cr /\ wb_map tr_table ex_wb_cr <> ex_wb_cr /\
+  via_csv load_csv_translated ex_wb_cr = Ok (wb_map tr_table ex_wb_cr).
+Proof. exact formats_agree_normalised_nonvacuous. Qed.
+Print Assumptions C14_formats_agree_normalised_nonvacuous.
+
+(* The statement over the property's whole domain (any number of rows, empty cells allowed) is
+   FALSE of the code as coded — two different defects, both reproduced on the implementation
+   (known findings "all-empty row" and "sheet without rows"). *)
+Theorem C14_formats_agree_full_refuted :
+  forall (X J : Type) (xl_write : workbook (table str str) -> X) (xl_load : X -> workbook (list (list xcell)))
+         (json_dumps : workbook jsheet -> J) (json_loads : J -> workbook jsheet),
+  (forall wb, xl_load (xl_write wb) = wb_map xl_grid wb) ->
+  forall translated : bool,
+  ~ (forall wb : workbook (table str str),
+       Forall (fun p => let t := snd p in
+                 hdr t <> [] /\ Forall (fun s => s <> []) (hdr t) /\ NoDup (hdr t) /\ rect t /\ cells_fit t /\
+                 cr_free t) wb ->
+       rmap (wb_map lift_table) (via_csv translated wb) = via_xlsx X xl_write xl_load wb /\
+       via_json J json_dumps json_loads translated wb = via_csv translated wb).
+Proof. exact formats_agree_full_refuted. Qed.
+Print Assumptions C14_formats_agree_full_refuted.
+
+(* sheet "s", header "a", one row with one empty cell: CSV keeps the row, XLSX drops it *)
+Theorem C14_formats_agree_empty_row_refuted :
+  forall (X : Type) (xl_write : workbook (table str str) -> X) (xl_load : X -> workbook (list (list xcell))),
+  (forall wb, xl_load (xl_write wb) = wb_map xl_grid wb) ->
+  forall translated : bool,
+  let wb := [([115], mkT [[97]] [[[]]])] in
+  via_csv translated wb = Ok wb /\
+  via_xlsx X xl_write xl_load wb = Ok [([115], mkT [Some [97]] [])] /\
+  rmap (wb_map lift_table) (via_csv translated wb) <> via_xlsx X xl_write xl_load wb.
+Proof. exact formats_agree_empty_row_refuted. Qed.
+Print Assumptions C14_formats_agree_empty_row_refuted.
+
+(* sheet "s", header "a", no rows: `convert` + JSONSheetReader return a table without headers *)
+Theorem C14_convert_full_refuted :
+  forall (J : Type) (json_dumps : workbook jsheet -> J) (json_loads : J -> workbook jsheet),
+  (forall b, json_loads (json_dumps b) = b) ->
+  forall translated : bool,
+  let wb := [([115], mkT [[97]] [])] in
+  via_csv translated wb = Ok wb /\
+  via_json J json_dumps json_loads translated wb = Ok [([115], empty_table)] /\
+  via_json J json_dumps json_loads translated wb <> via_csv translated wb.
+Proof. exact formats_agree_header_only_refuted. Qed.
+Print Assumptions C14_convert_full_refuted.
